@@ -81,6 +81,7 @@ var (
 )
 
 func vhResetPacks() {
+	vhNextOpId = 0
 	vhPacks = map[string]*vhPackRec{}
 	vhByOpp = map[*operationPack]*vhPackRec{}
 	vhNextTok = 0
@@ -260,4 +261,41 @@ func (d *vhDag) wellFormed(head int, produced bool) bool {
 		return false
 	}
 	return ok
+}
+
+// ---- exported entry points for harnesses of other packages (cache, api) ----
+
+// VHResetPacks clears the M-PACK registry.
+func VHResetPacks() { vhResetPacks() }
+
+// VHStoreCommit stores one commit holding the given operations in the on-disk layout of
+// operationPack.Write (format version fv) on the model repository and returns its hash.
+func VHStoreCommit(r *vrepo.Repo, fv uint, parents []repository.Hash, edit, create uint64, ops []Operation, author identity.Interface) repository.Hash {
+	rec := vhNewPack(ops, author)
+	blob := r.AddBlob([]byte(rec.token))
+	empty := r.AddBlob([]byte{})
+	entries := []repository.TreeEntry{
+		{ObjectType: repository.Blob, Hash: empty, Name: fmt.Sprintf(versionEntryPrefix+"%d", fv)},
+		{ObjectType: repository.Blob, Hash: blob, Name: opsEntryName},
+		{ObjectType: repository.Blob, Hash: empty, Name: fmt.Sprintf(editClockEntryPrefix+"%d", edit)},
+	}
+	if len(parents) == 0 {
+		entries = append(entries, repository.TreeEntry{ObjectType: repository.Blob, Hash: empty, Name: fmt.Sprintf(createClockEntryPrefix+"%d", create)})
+	}
+	return r.AddCommit(r.AddTree(entries), parents...)
+}
+
+// IdOperation (M-PACK): the id of a new operation is the hash of its JSON form, which is
+// cut; it is an injective function of the operation, realised as a counter.
+var vhNextOpId int
+
+func IdOperation(op Operation, base *OpBase) entity.Id {
+	if base.id == "" {
+		panic("op's id not set")
+	}
+	if base.id == entity.UnsetId {
+		vhNextOpId++
+		base.id = entity.Id(fmt.Sprintf("%08x%056x", 0xd0000000+vhNextOpId, 0))
+	}
+	return base.id
 }
